@@ -379,6 +379,21 @@ func (runInfo *runInfoStruct) invokeMemberExpr(expr *ast.MemberExpr) {
 		runInfo.rv = runInfo.rv.Elem()
 	}
 
+	if runInfo.rv.Kind() != reflect.Struct && runInfo.rv.IsValid() {
+		// a method with a pointer receiver of a named type that is not a struct
+		if method, found := reflect.PtrTo(runInfo.rv.Type()).MethodByName(expr.Name); found {
+			if runInfo.rv.CanAddr() {
+				runInfo.rv = runInfo.rv.Addr().Method(method.Index)
+			} else {
+				// invoke it on a copy, like for a struct passed by value
+				cv := reflect.New(runInfo.rv.Type())
+				cv.Elem().Set(runInfo.rv)
+				runInfo.rv = cv.Method(method.Index)
+			}
+			return
+		}
+	}
+
 	switch runInfo.rv.Kind() {
 	case reflect.Struct:
 		field, found := runInfo.rv.Type().FieldByName(expr.Name)
